@@ -112,7 +112,7 @@ fn main() {
         }
         #[cfg(agdb_verif)]
         "c01" => {
-            let mut o = walrun::Out { cases: vec![], imp: vec![], oracle: vec![], stats: BTreeMap::new(), samples: vec![], nontrivial: 0, programs: 0, snapshots: 0, damaged: 0 };
+            let mut o = walrun::Out { cases: vec![], imp: vec![], oracle: vec![], stats: BTreeMap::new(), samples: vec![], nontrivial: 0, programs: 0, snapshots: 0, damaged: 0, traced: 0, in_recovery: 0 };
             let mut r = rng::Rng::new(seed);
             let guard = arg(&args, "--guard", "0") == "1";
             let max_ops: u64 = arg(&args, "--steps", "14").parse().unwrap();
@@ -125,6 +125,8 @@ fn main() {
             write_lines(&format!("{}/oracle.txt", out), &o.oracle);
             o.stats.insert("snapshots".into(), o.snapshots);
             o.stats.insert("damaged-logs".into(), o.damaged);
+            o.stats.insert("recovery-call-traces".into(), o.traced);
+            o.stats.insert("cuts-inside-recovery-vs-model".into(), o.in_recovery);
             write_stats(&format!("{}/stats.json", out), &o.stats, o.snapshots + o.damaged, o.nontrivial, &o.samples);
         }
         #[cfg(agdb_verif)]
